@@ -165,14 +165,44 @@ def refine_coordinatewise(V, stats, h, ev, w, kind):
         if nb == 0:
             return True
         r = a - (float(a @ b) / nb) * b
-        noise = 1e-12 * (float(np.max(np.abs(y))) + float(np.max(np.abs(base))) + float(np.max(np.abs(prev))) + 1e-300)
+        # rounding in y and base enters the residual absolutely; rounding in prev only through the direction of b
+        # (a far-tail retry at 1e8 must not blur the test for the attempts that follow it)
+        na = float(np.sqrt(a @ a))
+        noise = 1e-12 * (float(np.max(np.abs(y))) + float(np.max(np.abs(base))) + 1e-300) \
+            + 1e-12 * na * (float(np.max(np.abs(prev))) + float(np.max(np.abs(base)))) / float(np.sqrt(nb))
         return float(np.max(np.abs(r))) <= noise
 
     for k in posts:
         y, val = ev[k][2], ev[k][3]
+        if pend is not None and d > 1 and np.array_equal(pend[1], w):
+            # a proposal identical to the current state (a degenerate width, or a far-tail draw folded onto the
+            # boundary the coordinate sits on): accepted or not, the state is the same - nothing to judge
+            stats["null_moves_not_judged"] += 1
+            pend = None
         if pend is not None:
             pk, py, pval = pend
             same_dir = same_line(y, w, py) if d > 1 else True
+            if kind == "gibbs" and d > 1 and np.array_equal(y, py):
+                # the same point evaluated twice: a retry that drew the identical value, or the update was accepted
+                # and the NEXT coordinate's proposal left it where it is.  Told apart by the coordinate the
+                # proposal draw in between is centred on; otherwise not interpretable.
+                jp = np.nonzero(py != w)[0]
+                loc = None
+                for e in reversed(ev[:k]):
+                    if e[1] == "post":
+                        break
+                    if e[1] == "rng" and e[2] == "normal" and np.ndim(e[4]) == 0 and np.ndim(e[3][0]) == 0:
+                        loc = float(e[3][0])
+                        break
+                others = [float(py[j]) for j in range(d) if jp.size == 1 and j != jp[0]]
+                if loc is not None and jp.size == 1 and loc in others and loc != float(w[jp[0]]):
+                    same_dir = False
+                elif loc is not None and jp.size == 1 and loc == float(w[jp[0]]) and loc not in others:
+                    same_dir = True
+                else:
+                    stats["warn_uninterpretable_geometry"] += 1
+                    return None
+                stats["identical_evaluations_disambiguated"] += 1
             if d == 1 or same_dir:
                 acc = False
             else:
@@ -423,14 +453,23 @@ def refine_ensemble(V, stats, h, ev, X, LX, X_after):
                 continue
             z = float((y - X[j]) @ dv) / den
             res = float(np.max(np.abs(X[j] + z * dv - y))) / (1.0 + float(np.max(np.abs(y))) + float(np.max(np.abs(dv))))
-            if res < 1e-9 and (1.0 / a) * (1 - 1e-9) <= z <= a * (1 + 1e-9):
-                cands.append((j, z))
+            # z is recovered from differences of stored positions: its rounding error is that of the positions
+            # (half an ulp at their magnitude each) divided by the distance between the two walkers
+            zerr = 8.0 * np.finfo(float).eps * (float(np.max(np.abs(y))) + float(np.max(np.abs(X[i]))) + float(np.max(np.abs(X[j])))) \
+                * (1.0 + a) / math.sqrt(den)
+            if res < 1e-9 and (1.0 / a) * (1 - 1e-9) - zerr <= z <= a * (1 + 1e-9) + zerr:
+                cands.append((j, z, zerr))
         stats["attempts_judged"] += 1
 
-        def zlaw(z):
-            return (not prev_uniforms) or any(min(abs(G(z) - v), abs(G(z) - (1 - v))) < 1e-7 for v in prev_uniforms)
+        def zlaw(z, zerr):
+            if zerr > 1e-3:
+                # walkers closer together than the resolution of their coordinates allows: z is not recoverable
+                stats["ensemble_zlaw_unresolvable"] += 1
+                return True
+            zc = min(max(z, 1.0 / a), a)
+            return (not prev_uniforms) or any(min(abs(G(zc) - v), abs(G(zc) - (1 - v))) < 1e-7 + 2.0 * zerr for v in prev_uniforms)
 
-        good_c = [(j, z) for j, z in cands if zlaw(z)]
+        good_c = [(j, z, zerr) for j, z, zerr in cands if zlaw(z, zerr)]
         if not good_c:
             folded = False
             if bounded:
@@ -456,25 +495,25 @@ def refine_ensemble(V, stats, h, ev, X, LX, X_after):
                 continue
             if cands:
                 _viol(V, "A.proposal", "ensemble: walker %d (%r -> %r): stretch factor(s) %r do not follow g(z) ~ z^-1/2 on [1/a, a] "
-                      "for the uniform(s) %r drawn for the move" % (i, X[i].tolist(), y.tolist(), [round(z, 9) for _, z in cands][:3], prev_uniforms[:3]))
+                      "for the uniform(s) %r drawn for the move" % (i, X[i].tolist(), y.tolist(), [round(c_[1], 9) for c_ in cands][:3], prev_uniforms[:3]))
             else:
                 _viol(V, "A.proposal", "ensemble: the proposal %r for walker %d (at %r) is not a stretch move X_j + z (X_i - X_j) about "
                       "any other walker with z in [1/a, a] (a=%g); walkers: %r" % (y.tolist(), i, X[i].tolist(), a, X.tolist()))
             return None
         ok_any = False
         why = ""
-        for j, z in good_c:
+        for j, z, zerr in good_c:
             la = (d - 1) * math.log(z) + (val - LX[i])
             good = True
             if math.isnan(la):
                 pass
-            elif la > TIE:
+            elif la > TIE + (d - 1) * zerr / z:
                 if not acc:
                     good = False
                     why = "log ratio %+.6g > 0 but rejected" % la
             elif u_all:
                 q = math.exp(la) if la > -745 else 0.0
-                if not any(abs(u - q) <= 1e-12 + 1e-9 * q or acc == (u <= q) for u in u_all):
+                if not any(abs(u - q) <= 1e-12 + (1e-9 + (d - 1) * zerr / z) * q or acc == (u <= q) for u in u_all):
                     good = False
                     why = "%s with uniform(s) %s, z^(d-1) p(Y)/p(X) = %.9g (z=%.6g, d=%d)" % (
                         "accepted" if acc else "rejected", ", ".join("%.9g" % u for u in u_all), q, z, d)
@@ -541,7 +580,7 @@ def execute(sc):
                 continue
             if op[0] == "exchange":
                 g = np.random.Generator(np.random.PCG64([op[1], 17]))
-                pos = h.target.draw(g, h.T if cfg["target"]["kind"] != "banana" else 1.0)
+                pos = h.foreign_point(h.target.draw(g, h.T if cfg["target"]["kind"] != "banana" else 1.0))
                 try:
                     lc.op_exchange(h, pos, h.target.logpdf(pos))
                 except LibRaised as e:
